@@ -1373,3 +1373,90 @@ def parameter_threading_rule(ctx, rid, scope, pname="dt", min_instances=3):
                 else:
                     r.ok(f"{f.qualname} -> {g.name}: {pname} passed")
                 break
+
+
+def per_group_state_rule(ctx, rid, scope, min_instances=1):
+    """A method that works on ONE element group (it takes the group as a parameter and is called with the loop variable of
+    `for groupElem in <mesh>.Get_list_groupElem()`) keeps what it stores on the object apart per group: a plain
+    `self.X = <value computed from that group>` that the object reads back later holds, on a mesh mixing element types,
+    the LAST group's value for all of them (a history field of one group compared with, then overwritten by, another's).
+    Accepted: `self.X[groupElem] = ...` (keyed by the group), values that do not depend on the group."""
+    repo = ctx.repo
+    r = ctx.rule(rid, "per-group methods (called with the loop variable of a loop over the element groups) store group-dependent state keyed by the group, never in one plain attribute that is read back", min_instances=min_instances)
+    GROUP_ITERS = ("Get_list_groupElem", "dict_groupElem", "list_groupElem")
+    by_class = {}
+    for f in repo.all_functions():
+        if f.cls is not None and scope(f):
+            by_class.setdefault(f.cls.qualname, []).append(f)
+    for cq, funcs in sorted(by_class.items()):
+        # methods called with the loop variable of a group loop (also from comprehensions)
+        per_group = {}
+        for g in funcs:
+            for n in ast.walk(g.node):
+                loops = []
+                if isinstance(n, ast.For) and any(k in norm_text(n.iter) for k in GROUP_ITERS):
+                    loops.append(({x.id for x in ast.walk(n.target) if isinstance(x, ast.Name)}, n.body))
+                elif isinstance(n, (ast.ListComp, ast.GeneratorExp, ast.SetComp, ast.DictComp)):
+                    for gen in n.generators:
+                        if any(k in norm_text(gen.iter) for k in GROUP_ITERS):
+                            elts = [n.key, n.value] if isinstance(n, ast.DictComp) else [n.elt]
+                            loops.append(({x.id for x in ast.walk(gen.target) if isinstance(x, ast.Name)}, elts))
+                for names, body in loops:
+                    for b in body:
+                        for c in ast.walk(b):
+                            if isinstance(c, ast.Call) and isinstance(c.func, ast.Attribute) and isinstance(c.func.value, ast.Name) and c.func.value.id == "self":
+                                for pos, a in enumerate(c.args):
+                                    if isinstance(a, ast.Name) and a.id in names:
+                                        per_group.setdefault(c.func.attr, set()).add(pos)
+                                for kw in c.keywords:
+                                    if isinstance(kw.value, ast.Name) and kw.value.id in names and kw.arg:
+                                        per_group.setdefault(c.func.attr, set()).add(kw.arg)
+        if not per_group:
+            continue
+        reads_all = {}
+        for g in funcs:
+            for a in self_reads(g):
+                reads_all.setdefault(a, set()).add(g.name)
+        for g in funcs:
+            slots = per_group.get(g.name) or (per_group.get(g.cls.mangle(g.name)) if g.name.startswith("__") else None)
+            if not slots:
+                continue
+            params = [a.arg for a in g.node.args.args][1:]
+            tainted = set()
+            for s_ in slots:
+                if isinstance(s_, int) and s_ < len(params):
+                    tainted.add(params[s_])
+                elif isinstance(s_, str):
+                    tainted.add(s_)
+            if not tainted:
+                continue
+            r.instance(fn=g.qualname)
+            # forward taint through the local assignments (fixpoint)
+            changed = True
+            while changed:
+                changed = False
+                for n in ast.walk(g.node):
+                    if isinstance(n, (ast.Assign, ast.AugAssign, ast.AnnAssign)) and getattr(n, "value", None) is not None:
+                        if {x.id for x in ast.walk(n.value) if isinstance(x, ast.Name)} & tainted:
+                            tg = n.targets if isinstance(n, ast.Assign) else [n.target]
+                            for t in tg:
+                                for x in (t.elts if isinstance(t, (ast.Tuple, ast.List)) else [t]):
+                                    if isinstance(x, ast.Name) and x.id not in tainted:
+                                        tainted.add(x.id)
+                                        changed = True
+            bad = None
+            for n in ast.walk(g.node):
+                if not isinstance(n, ast.Assign):
+                    continue
+                for t in n.targets:
+                    if isinstance(t, ast.Attribute) and isinstance(t.value, ast.Name) and t.value.id == "self":
+                        dep = {x.id for x in ast.walk(n.value) if isinstance(x, ast.Name)} & tainted
+                        attr = g.cls.mangle(t.attr)
+                        readers = reads_all.get(attr, set())
+                        if dep and readers:
+                            bad = (n, t.attr, sorted(dep)[0], sorted(readers)[0])
+            if bad:
+                n, attr, dep, reader = bad
+                r.fail(g.qualname, f"per-group-state:{attr}", g.file, n.lineno, f"{g.cls.name}.{g.name}", f"`{norm_text(n)[:70]}` stores a value computed from the element group `{dep}` in the single attribute self.{attr}, read back by {reader}(): {g.name} is called once per group of the mesh, so on a mesh mixing element types each group sees (and overwrites) another group's data")
+            else:
+                r.ok(f"{g.qualname}: group-dependent stores are keyed")
